@@ -176,4 +176,24 @@ func init() {
 		s.give(n0, sign(hdr(0xA))) // n0 accepts A
 		return s.viol
 	}})
+	// L1: protocol-level liveness lock of dBFT 2.0 - a primary that restarts with
+	// empty state proposes twice for the same view.
+	regScript(&Script{Name: "L1_stall_restarted_primary_proposes_twice", Prop: "C09", Class: "stall_commit_lock_with_split_proposals", Run: func() *Violation {
+		sc := scriptScenario(4, -1)
+		sc.Family = "gst"
+		sc.Start = 4 // height 5: validator 1 is primary and proposes at Start
+		sc.Fault[1] = FAmnesia
+		sc.GST = 0
+		sc.Delta = int64(time.Millisecond)
+		sc.Heights = 3
+		sc.MaxTime = 400 * int64(sc.TPB)
+		sc.MaxEvents = 1000000
+		sc.SyncEvery = int64(sc.TPB)
+		var zero [nStreams][]uint64
+		s := NewSim(sc, NewReplayTape(zero))
+		s.nodeOf(1).scriptCrashSends = 2 // the first proposal reaches validators 0 and 2 only
+		s.AddOracle(NewOracleC09(s))
+		s.Run()
+		return s.viol
+	}})
 }
